@@ -53,7 +53,9 @@ OnlyStartFlagDiffers(a, b) ==
      \/ LineEq(a[k], b[k])
      \/ /\ IsStartCall(a[k]) /\ IsStartCall(b[k]) /\ Len(a[k]) = Len(b[k])
         /\ \A q \in 1..Len(a[k]) : TokEq(a[k][q], b[k][q]) \/ (a[k][q].k = "int" /\ b[k][q].k = "int" /\ q = Len(a[k]) - 1)
-IsProcHeader(t) == Len(t) = 2 /\ IsKw(t[1], "PROCEDURE")
+\* (a name taken from a file stem may hold '-' and is then lexed as several tokens)
+IsProcHeader(t) == Len(t) >= 2 /\ IsKw(t[1], "PROCEDURE")
+HeaderName(t) == [k \in 1..(Len(t) - 1) |-> t[k + 1].v]
 LastHeader(ls) == LET c == { k \in 1..Len(ls) : IsProcHeader(ls[k]) } IN IF c = {} THEN 0 ELSE CHOOSE k \in c : \A j \in c : j <= k
 OnlyHeaderAndBundleRemoved(with, without) ==         \* deps on -> off
   LET h == LastHeader(with) IN
@@ -91,7 +93,7 @@ CliOk(cs, f) ==
       got == [k \in 1..Len(cs.cli[Idx(f)].ix) |-> cs.table[cs.cli[Idx(f)].ix[k]]]
       h == LastHeader(got) IN
   IF cs.cli[Idx(f)].lf # 0 THEN "cli:line-feed-in-output"
-  ELSE IF FlagMap(f)[4] = 1 /\ (h = 0 \/ got[h][2].v # cs.stem) THEN "cli:procedure-not-named-after-input-file"
+  ELSE IF FlagMap(f)[4] = 1 /\ (h = 0 \/ HeaderName(got[h]) # cs.stem) THEN "cli:procedure-not-named-after-input-file"
   ELSE IF Len(NonBlank(want)) # Len(NonBlank(got)) \/ \E k \in 1..Len(NonBlank(want)) : ~LineEq(NonBlank(want)[k], NonBlank(got)[k])
        THEN "cli:flag-mapping:output-differs-from-convert-under-mapped-options"
   ELSE ""
